@@ -260,7 +260,9 @@ func freeCase(b *harness.B, leaves []H, seed uint64, freed []uint64, all bool) {
 		l2, _ := toLib(freeActions(fr, n), nil)
 		v2 := func() bool { return rhp2.VerifyDiffProof(l2, n, th, lh, oldRoot, newRoot, nil) }
 		if mRoot(nl) == newRoot {
-			b.Guard("C16/sound/"+name+"/"+kind, wit, func() { observe(b, name, kind+"(same resulting list: claim still true)", verify(th, lh, fr, oldRoot, newRoot)) })
+			b.Guard("C16/sound/"+name+"/"+kind, wit, func() {
+				observe(b, name, kind+"(same resulting list: claim still true)", verify(th, lh, fr, oldRoot, newRoot))
+			})
 			return
 		}
 		tamper(b, name, kind, wit, what, func() bool { return verify(th, lh, fr, oldRoot, newRoot) })
